@@ -24,6 +24,32 @@ CHECKS = {
             '4.19'),
 }
 
+CHECKS.update({
+    'C20': ('exploration',
+            'model-based runtime monitor: real BufferedReader vs slice/BytesIO reference model over generated operation programs, invariant hook on the real object after every call',
+            'Generated programs (read/peek/seek x3/tell/readall) over generated window/buffer/cache geometries are executed on the '
+            'real class and on a reference model; every return value and the hooked internal state (pos, cache accounting) are '
+            'compared after each operation. Decides only the programs executed.',
+            'Trusted: CPython io.BytesIO as the model. Windows inside the file, explicit size (the quantified domain).',
+            '4.20'),
+    'C01': ('exploration',
+            'HTTP-boundary runtime monitor under a virtual clock: independent rational DASH availability model decides which URLs the served manifest makes addressable; each is fetched from the real WSGI app',
+            'Thousands of (stream, template, option vector, clock) cases per run; the manifest is read by an independent MPD reader, '
+            'the addressable set is computed from the document alone (ISO/IEC 23009-1 5.3.9.5.3, Fractions) and every init/media URL '
+            'is requested at the same frozen instant. Reach counters prove the anchored timing functions executed.',
+            TRUST_HTTP, '4.1'),
+    'C02': ('exploration',
+            'HTTP-boundary runtime monitor: independent ISO-BMFF walker reads tfdt/mfhd/trun of every served segment and compares with the manifest entry that named it; payload-hash identification of the stored segment for the alignment rule',
+            'Same workload as C01; every 200 media response is parsed by a walker that shares no code with dashlive and compared with '
+            'the $Time$/$Number$/S@d that addressed it; timelines are checked gapless; loop alignment is decided in exact rationals.',
+            TRUST_HTTP, '4.2'),
+    'C03': ('exploration',
+            'HTTP-boundary runtime monitor: independent ISO-BMFF walker checks nesting, payload identity against the stored file, trun/saio offsets and senc/saiz/trun agreement of every served segment',
+            'Same workload as C01 biased to DRM/PIFF/event options; each served segment is walked down to leaf boxes and compared with '
+            'the stored bytes; offsets are recomputed from the served bytes alone.',
+            TRUST_HTTP, '4.3'),
+})
+
 NOT_YET = {}
 
 
